@@ -151,6 +151,19 @@ fn foreign_operand_devs(xor: bool, p: usize, x: Fe, h: &Honest) -> Vec<Dev> {
 pub fn cases(tier: Tier) -> Vec<GCase> {
     let seed = seed();
     let mut out = vec![];
+    // the composer's constant witnesses as operands (`xor(x, ZERO)` is the documented truncation idiom)
+    for p in pair_counts(tier) {
+        for (a, b) in [(neg1(), zero()), (zero(), fe(0xb5)), (one(), fe(0xb5)), (zero(), zero()), (one(), one())] {
+            for xor in [false, true] {
+                let spec = m5::logic(&a, &b, 2 * p, xor);
+                let mut c = GCase::new(gadget(xor, p, a, b).with_const_handles(), Expect::Sat(vec![spec]), &format!("logic/{}/const-handles", if xor { "xor" } else { "and" }));
+                c.dev_stride = if p <= 3 { 1 } else { 0 };
+                c.rewire = p <= 1;
+                c.confirm = p <= 3 || p == 127;
+                out.push(c);
+            }
+        }
+    }
     // aliased operands: op(x, x)
     for p in pair_counts(tier) {
         for x in [fe(0xb5), neg1(), Rho::new(seed, 1399 + p as u64).next_fe()] {
